@@ -177,6 +177,8 @@ func NewMatcher(trigger Trigger, on string) *Matcher {
 // Match returns true if keyPath matches the On condition.
 func (tm *Matcher) Match(keyPath string) bool {
 	pattern := strings.Replace(tm.On, "*", "[^/]+", -1)
+	// On is the prefix of the file path: anchor it, or "A/1Min/X" also fires for "AA/1Min/X"
+	pattern = "^" + pattern
 	matched, _ := regexp.MatchString(pattern, keyPath)
 	return matched
 }
